@@ -51,14 +51,19 @@ pub fn decode(tape: &[u16]) -> Case {
         mutators(&mut t, &mut m);
         // keep only non-removing element/comment/text edits on separate handlers appended after the observers
         for mut s in m.sels {
-            s.ops.retain(|o| matches!(o.op, Op::Before(..) | Op::After(..) | Op::Prepend(..) | Op::Append(..) | Op::SetAttr(..) | Op::StartBefore(..) | Op::StartAfter(..)));
+            s.ops.retain(|o| matches!(o.op, Op::Before(..) | Op::After(..) | Op::Prepend(..) | Op::Append(..) | Op::SetAttr(..) | Op::RemoveAttr(..) | Op::SetTagName(..) | Op::SetText(..) | Op::OnEndTag(..) | Op::StartBefore(..) | Op::StartAfter(..)));
+            // several edits of one token (its location must survive any number of them)
+            if t.chance(1, 3) {
+                let extra: Vec<ScriptOp> = s.ops.iter().filter(|o| matches!(o.op, Op::SetAttr(..) | Op::SetTagName(..) | Op::SetText(..))).cloned().collect();
+                s.ops.extend(extra);
+            }
             if !s.ops.is_empty() {
                 cfg.sels.push(s);
             }
         }
         // an auditor registered last: reads every element again after the edits of the handlers before it
         if cfg.sels.len() > 1 {
-            cfg.sels.push(SelSpec { sel: AUDITOR.into(), el: true, ..Default::default() });
+            cfg.sels.push(SelSpec { sel: AUDITOR.into(), el: true, end_tag: true, comments: true, ..Default::default() });
         }
     }
     let d = doc(&mut t, &DocOpts { enc, ..DocOpts::default() });
@@ -126,6 +131,21 @@ pub fn check_doc(d: &Doc, cuts: &[usize], cfg: &Cfg, st: &mut Stats) -> PResult 
     // drop empty text nodes (e.g. zero-length chunk protocol artefacts)
     let got: Vec<Ev> = got.into_iter().filter(|e| !matches!(e, Ev::Text { text, loc, .. } if text.is_empty() && loc.0 == loc.1)).collect();
     let exp = expected_events(d, &tree);
+    // a renaming handler (set_tag_name) legitimately changes the name an earlier-registered
+    // observer reads in its END-tag handler; names are not this property's subject
+    let renames = cfg.sels.iter().flat_map(|s| s.ops.iter()).any(|o| match &o.op { Op::SetTagName(_) => true, Op::OnEndTag(v) => v.iter().any(|x| matches!(x, Op::SetTagName(_))), _ => false });
+    // likewise Comment::set_text by a selector handler is what a document-level comment handler (run later) reads
+    let retexts = cfg.sels.iter().flat_map(|s| s.ops.iter()).any(|o| o.kind == Kind::Comment && matches!(o.op, Op::SetText(_)));
+    let unname = |v: Vec<Ev>| -> Vec<Ev> {
+        v.into_iter()
+            .map(|e| match e {
+                Ev::EndTag { h, loc, el_loc, .. } if renames => Ev::EndTag { h, name: String::new(), name_pc: String::new(), loc, el_loc },
+                Ev::Comment { h, loc, .. } if retexts => Ev::Comment { h, text: String::new(), loc },
+                o => o,
+            })
+            .collect()
+    };
+    let (got, exp) = (unname(got), unname(exp));
     if got != exp {
         let k = got.iter().zip(exp.iter()).position(|(x, y)| x != y).unwrap_or(got.len().min(exp.len()));
         fail!("C14: reported token/location differs from the generator's layout at event #{k}:\n  got      {:?}\n  expected {:?}", got.get(k), exp.get(k));
@@ -135,11 +155,24 @@ pub fn check_doc(d: &Doc, cuts: &[usize], cfg: &Cfg, st: &mut Stats) -> PResult 
     // attributes no handler touched keep theirs ("None for attributes that were added or modified")
     if cfg.sels.last().map(|s| s.sel == AUDITOR).unwrap_or(false) {
         let audit_h = format!("s{}", cfg.sels.len() - 1);
-        let set_names: Vec<String> = cfg.sels.iter().flat_map(|s| s.ops.iter()).filter_map(|o| if let Op::SetAttr(n, _) = &o.op { Some(n.to_ascii_lowercase()) } else { None }).collect();
+        let set_names: Vec<String> = cfg.sels.iter().flat_map(|s| s.ops.iter()).filter_map(|o| if let Op::SetAttr(n, _) | Op::RemoveAttr(n) = &o.op { Some(n.to_ascii_lowercase()) } else { None }).collect();
         let mut audited = 0;
         for ev in r.events.iter().filter(|e| e.handler() == audit_h) {
+            // token ranges read after any number of edits are still the token's bytes
+            match ev {
+                Ev::EndTag { loc, .. } => {
+                    ensure!(d.toks.iter().any(|t| t.kind == TK::End && (t.start, t.end) == *loc), "C14: after edits, an end tag reports location {loc:?}, which is not an end tag of the input ({:?})", show(d.bytes.get(loc.0..loc.1.min(d.bytes.len())).unwrap_or(&[])));
+                    continue;
+                }
+                Ev::Comment { loc, .. } => {
+                    ensure!(d.toks.iter().any(|t| t.kind == TK::Comment && (t.start, t.end) == *loc), "C14: after edits, a comment reports location {loc:?}, which is not a comment of the input ({:?})", show(d.bytes.get(loc.0..loc.1.min(d.bytes.len())).unwrap_or(&[])));
+                    continue;
+                }
+                _ => {}
+            }
             let Ev::Element { attrs, loc, .. } = ev else { continue };
             let Some(ti) = d.toks.iter().position(|t| t.kind == TK::Start && t.start == loc.0) else { fail!("C14: audited element at {loc:?} is not a start tag of the layout") };
+            ensure!(d.toks[ti].end == loc.1, "C14: after edits by earlier handlers, the element reports location {loc:?} but its start tag is {:?} ({:?})", (d.toks[ti].start, d.toks[ti].end), show(&d.bytes[d.toks[ti].start..d.toks[ti].end]));
             let src = &tree.elems[tree.tok_elem[ti].unwrap()].attrs;
             for a in attrs {
                 if let Some(nl) = a.name_loc {
